@@ -222,6 +222,9 @@ func (r *SparseReal64Matrix) MdotM(a, b ConstMatrix) Matrix {
   for it := r.Iterator(); it.Ok(); it.Next() {
     it.Get().Reset()
   }
+  if n == 0 || m == 0 {
+    return r
+  }
   t1 := NullScalar(r.ElementType())
   for it := a.ConstIterator(); it.Ok(); it.Next() {
     i, j := it.Index()
